@@ -1,3 +1,4 @@
+pub mod c11_refpp;
 pub mod diffexec;
 pub mod irck;
 pub mod irexec;
